@@ -237,6 +237,7 @@ struct ConsSpec
 struct Cfg
 {
   int src = 0, ndim = 2, nvar = 1, ndir = 1, patho = 0;
+  bool nearSingular = false; // hand-made multivariate variogram whose coregionalisation matrices sit just outside the PSD cone
   double L = 100;        // size of the domain
   double angref = 0;     // direction of the first variogram direction (2-D), degrees
   std::vector<VectorDouble> codirs;
@@ -493,6 +494,21 @@ static std::unique_ptr<Vario> makeHandVario(Rng& r, const Cfg& g, const Truth* g
   double mult = g.patho == P_HUGE ? 1e12 : (g.patho == P_TINY ? 1e-12 : 1.);
   double noise = g.patho == P_NOISY ? 0.5 : (r.coin(0.5) ? 0. : 0.05);
   if (noiseGiven >= 0) noise = noiseGiven;
+  if (g.nearSingular)
+  {
+    // every structure carries the SAME matrix b b' (perfectly correlated variables) with its off-diagonal terms inflated by
+    // (1 + e), e = 0.3 tolstop: the simple and cross variograms are proportional to one function of h, so the unconstrained
+    // least-squares sill matrix of every fitted structure is proportional to that matrix, whose smallest eigenvalue is
+    // negative and of relative size ~ e. A returned model must still have PSD sills ("every structure has a positive
+    // semi-definite sill matrix"), however small the negative eigenvalue of the raw least-squares solution.
+    double e = 0.3 * g.tolstop;
+    std::vector<double> b(g.nvar);
+    for (int i = 0; i < g.nvar; i++) b[i] = std::sqrt(std::max(1e-3, (double)t.B[0](i, i))) * (i % 2 ? -1. : 1.);
+    for (int k = 0; k < t.nst; k++)
+      for (int i = 0; i < g.nvar; i++)
+        for (int j = 0; j < g.nvar; j++) t.B[k](i, j) = b[i] * b[j] * (i == j ? 1. : 1. + e) * (k + 1.);
+    noise = 0.;
+  }
   // variances = total sills of the truth (bounded structures) -- only used by the library as initial values
   VectorDouble vars(g.nvar * g.nvar, 0.);
   for (int iv = 0; iv < g.nvar; iv++)
@@ -1687,6 +1703,16 @@ static void run_case_inner(Rng& r, Ctx& c)
   Cfg g = drawCfg(r, c.thorough());
   defineDefaultSpace(ESpaceType::RN, g.ndim);
   bool sillsMode = r.coin(0.14);
+  // half of the hand-made multivariate cases fitted with Goulard and without sill constraint get a coregionalisation just
+  // outside the PSD cone (see makeHandVario); decided on the case index, so that the draws of the case are unchanged
+  if (g.src == SRC_HAND && g.nvar >= 2 && g.goulard && g.cons.empty() && FFFF(g.constSill) && !g.flagIntrinsic &&
+      (g.patho == P_NONE || g.patho == P_NOISY) && g.expectFail.empty() && c.icase % 2 == 0)
+  {
+    g.nearSingular = true;
+    g.patho        = P_NONE;
+    if (c.icase % 4 == 0) g.tolstop = 1e-3;
+    c.probe("near-singular-coregionalisation");
+  }
 
   std::string optmask = fmt("%d%d%d%d%d%d%d%d%d%d", g.noreduce, g.authAniso, g.authRot, g.lockSameRot, g.lockRot2d,
                             g.lockNo3d, g.lockIso2d, g.goulard, g.keepIntstr, g.flagIntrinsic);
